@@ -36,7 +36,9 @@ void f_vf_dealloc(uint32_t flags, uint64_t id, uint8_t *p, uint64_t bytes);
 uint64_t f_vf_soccc(uint64_t id);
 #define VF_SOCCC(id) ((id) + 1000u)
 
+#define VF_NWIN 4
 extern uint64_t g_wit; /* witness byte index of run-time-length copies */
+extern uint64_t g_win[VF_NWIN]; /* ghost offsets of 8-byte windows that run-time-length copies transfer faithfully */
 void *vf_memcpy(void *d, const void *s, uint64_t n);
 void *vf_memmove(void *d, const void *s, uint64_t n);
 void *vf_memset(void *d, int c, uint64_t n);
@@ -50,4 +52,5 @@ _Bool nondet_bool(void);
 uint64_t nondet_u64(void);
 uint32_t nondet_u32(void);
 uint8_t nondet_u8(void);
+uint16_t nondet_u16(void);
 #endif
